@@ -11,6 +11,7 @@ from harness import sdrv  # noqa: E402
 
 # command variants: (kind, wf, line template).  {a} = address number
 VARIANTS = {
+    'XPING': [('NOOP', 1, b'XPING\r\n'), ('NOOP', 1, b'xping now\r\n')],      # an application-defined command (answered 250 by its handler)
     'EHLO': [('EHLO', 1, b'EHLO client.example\r\n')],
     'HELO': [('HELO', 1, b'HELO client.example\r\n')],
     # (the null reverse-path of bounces is a sender like any other)
@@ -160,6 +161,17 @@ def main():
                 continue
             emit('authverdict', ['EHLO', 'AUTH', 'AUTH', 'MAIL', 'AUTH', 'RCPT', 'DATA', 'AUTH', 'QUIT'], {'auth': [va, vb, 0, 0]}, auth=True)
             emit('authverdict', ['AUTH', 'EHLO', 'AUTHBAD', 'AUTH', 'EHLO', 'AUTH', 'MAIL', 'RCPT', 'DATA'], {'auth': [va, vb, 0, 0]}, auth=True)
+    # an application-defined command whose handler writes its own answer, then unknown and malformed lines - in this session
+    # and in the ones that follow in the same process: they are still answered with an error
+    for seq in (['EHLO', 'XPING', 'UNKNOWN', 'MAIL', 'UNKNOWN', 'RCPT', 'DATA', 'UNKNOWN', 'QUIT'], ['XPING', 'UNKNOWN', 'EHLO', 'XPING', 'UNKNOWN'],
+                ['EHLO', 'UNKNOWN', 'XPING', 'UNKNOWN', 'UNKNOWN']):
+        if mode != 'sessions':
+            break              # (the design model has no application-defined commands)
+        ev = run_session(seq, {}, rnd, {'custom': True})
+        f.write(json.dumps({'id': shard + n * nshards, 'cls': 'custom', 'cfg': {'stall': 0, 'deadline': 0, 'seq': seq, 'auth': 0}, 'ev': ev},
+                           separators=(',', ':')) + '\n')
+        n += 1
+        stats['executions'] += 1
     # greetings refused by the application on a server with extensions configured: a refused EHLO / HELO changes nothing
     for vh in (450, 550):
         for seq, vd in ((['EHLO', 'HELO', 'AUTH', 'EHLO', 'AUTH', 'MAIL', 'RCPT', 'DATA', 'QUIT'], {'helo': [vh]}),
